@@ -313,6 +313,25 @@ theorem scaleNode_spec {m m' : MeshVal (List s)} {attr : Option String} {o : Opt
     Changed ⟨3, attr.getD "Position"⟩ (List.map (liftV3 fun v => (o.getD V3.Zero).Add ((v.Sub (o.getD V3.Zero)).MultByVector a))) m m' :=
   scaleAbout_spec hm
 
+/-! ## VertexColorSpace -/
+
+/-- `VertexColorSpace`: only the colour attribute changes, component-wise by the selected transfer function; an enum
+    value other than 0 / 1 writes the zero vector everywhere (the Go `switch` has no default) -/
+theorem vertexColorSpace_spec {g0 g1 : s → s} {m m' : MeshVal (List s)} {n : String} {mode : Nat}
+    (hm : m.vertexColorSpace g0 g1 n mode = some m') :
+    Changed ⟨3, n⟩ (List.map (liftV3 fun v =>
+      match mode with
+      | 0 => ⟨g0 v.x, g0 v.y, g0 v.z⟩
+      | 1 => ⟨g1 v.x, g1 v.y, g1 v.z⟩
+      | _ => V3.Zero)) m m' := modifyAttr_spec hm
+
+omit [DecidableEq s] in
+/-- the Transformer: attribute present ⇒ the function; missing ⇒ the mesh itself when `SkipOnMissingAttribute`, else rejected -/
+theorem vertexColorSpaceT_spec (g0 g1 : s → s) (m : MeshVal (List s)) (n : String) (skip : Bool) (mode : Nat) :
+    (m.hasAttr ⟨3, n⟩ = true → m.vertexColorSpaceT g0 g1 n skip mode = m.vertexColorSpace g0 g1 n mode) ∧
+    (m.hasAttr ⟨3, n⟩ = false → m.vertexColorSpaceT g0 g1 n skip mode = if skip then some m else none) := by
+  constructor <;> intro h <;> simp [MeshVal.vertexColorSpaceT, h]
+
 /-! ## ScaleAttribute2D / NormalizeAttribute2D / CopyFloatNAttribute -/
 
 /-- `ScaleAttribute2D`: `v ↦ o + (v - o) ∘ a` on the width-2 attribute, nothing else -/
@@ -361,5 +380,27 @@ theorem alongNormal_post (amount : ℝ) (v w : V3 ℝ) :
 theorem scale2D_post (o a v : V2 ℝ) :
     o.Add ((o.Sub o).MultByVector a) = o ∧ (o.Add ((v.Sub o).MultByVector a)).Sub o = (v.Sub o).MultByVector a := by
   constructor <;> (cases o; cases a; cases v; simp [V2.Add, V2.Sub, V2.MultByVector])
+
+theorem length2_div (v : V2 ℝ) {L : ℝ} (hL : 0 < L) : (v.DivByConstant L).Length = v.Length / L := by
+  simp only [V2.Length, V2.DivByConstant, V2.Scale, RS.sqrt_eq]
+  have : v.x * (((1 : Nat) : ℝ) / L) * (v.x * (((1 : Nat) : ℝ) / L)) + v.y * (((1 : Nat) : ℝ) / L) * (v.y * (((1 : Nat) : ℝ) / L))
+      = (v.x * v.x + v.y * v.y) / (L * L) := by
+    field_simp
+    simp
+  rw [this, Real.sqrt_div' _ (by positivity), Real.sqrt_mul_self hL.le]
+
+/-- `NormalizeAttribute2D` over ℝ: when `L > 0` is the longest length in the array (attained by `w`), every normalised
+    vector has length ≤ 1 and the longest has length exactly 1 (`DivByConstant` = `Scale(1/L)`) -/
+theorem normalize2D_post (d : List (V2 ℝ)) (w : V2 ℝ) (_hw : w ∈ d) (hpos : 0 < w.Length)
+    (hmax : ∀ v ∈ d, v.Length ≤ w.Length) :
+    (∀ v ∈ d, (v.DivByConstant w.Length).Length ≤ 1) ∧ (w.DivByConstant w.Length).Length = 1 := by
+  constructor
+  · intro v hv
+    rw [length2_div v hpos, div_le_one hpos]; exact hmax v hv
+  · rw [length2_div w hpos, div_self hpos.ne']
+
+example : (⟨3, 4⟩ : V2 ℝ).Length = 5 := by
+  simp only [V2.Length, RS.sqrt_eq]
+  rw [show (3 : ℝ) * 3 + 4 * 4 = 5 * 5 by norm_num, Real.sqrt_mul_self (by norm_num)]
 
 end PolyVerif.C03
